@@ -424,6 +424,25 @@ func RunFileSet(fs FileSet, deadline time.Time) (res result, timedOut bool) {
 		}
 		c := Case{Files: fs.Files, Hist: h}
 		func() {
+			// a fact about the rendered capture that the case text does not show: the two fragments of one
+			// datagram lie in different files and the file with the later fragment is imported first
+			n0 := len(res.findings)
+			defer func() {
+				batchOf := map[int]int{}
+				for bi, b := range h.Batches {
+					for _, f := range b {
+						batchOf[f] = bi
+					}
+				}
+				for _, pr := range cp.SplitPairs() {
+					if batchOf[pr[1]] < batchOf[pr[0]] {
+						for i := n0; i < len(res.findings); i++ {
+							res.findings[i].key += " later-fragment-of-a-datagram-imported-before-the-earlier-one"
+						}
+						break
+					}
+				}
+			}()
 			defer func() {
 				if r := recover(); r != nil {
 					res.findings = append(res.findings, finding{"panic", c.Key(), fmt.Sprint(r), c})
